@@ -6,6 +6,7 @@ import (
 	"go/token"
 	"go/types"
 	"math"
+	"regexp"
 	"strings"
 	"sync/atomic"
 	"time"
@@ -31,12 +32,14 @@ type Config struct {
 	Thorough         bool
 	Deadline         time.Time
 	OKSampleMax      int
-	Stop             *atomic.Bool // set when another case of the same check found a violation
+	OnlyLabel        *regexp.Regexp // violations whose label does not match belong to a sibling property's check
+	Stop             *atomic.Bool   // set when another case of the same check found a violation
 }
 
 type Stats struct {
 	Steps, Forks, Merges, MergeFails, Paths, Calls int
 	PathsOK, PathsViol, PathsDead, PathsKnown      int
+	PathsForeign                                   int
 }
 
 type Event struct {
